@@ -1251,6 +1251,29 @@ static Plan gen_mpi(Rng& r, int tier, std::string const& focus)
         p.aux[0] = 1 + r.below(p.calls.size() - 1);
         p.aux[1] = r.chance(0.5) ? p.P : 1 + r.below(9);
     }
+    if (r.chance(tier ? 0.0015 : 0.0008))
+    {
+        // volume run: more calls than a float can count (2^24), in the thorough tier rarely more than
+        // an int can count (2^31); no call logs, counters and tiling from the cheap statistics
+        p.variant = 9;
+        p.integ = PLAIN;
+        p.nt = NT_F;
+        p.eng = E_SCRIPT32;
+        p.dims = 1;
+        p.acc = 0;
+        p.dists.clear();
+        p.fk = F_CONST;
+        p.fmag = 0;
+        p.faults.clear();
+        p.cbk = 1;
+        p.stop = -1;
+        p.target = 0;
+        p.P = 1 + r.below(3);
+        p.aux.assign(2, 0);
+        bool const huge = tier && r.chance(0.02);
+        p.calls.assign(1, (huge ? (1ULL << 31) : (1ULL << 24)) + 1 + r.below(6));
+        if (huge) p.P = 2 + r.below(2);
+    }
     if (r.chance(0.3))
     {
         Fault f;
@@ -1268,6 +1291,13 @@ static bool mpi_segment(Plan const& p, Session& s, std::vector<u64> const& seg_c
     std::string const key = fmt("%s %s %s", integ_name(p.integ), nt_name(p.nt), engine_name(p.eng));
     ld const eps = eps_of(p.nt);
     ctl.P = P;
+    bool const volume = (p.variant == 9);
+    if (volume)
+    {
+        ctl.log_calls = false;
+        ctl.log_text = false;
+        s.check = false;
+    }
     RunOut const o = s.run(seg_calls, ctl);
 
     if (o.threw)
@@ -1293,11 +1323,12 @@ static bool mpi_segment(Plan const& p, Session& s, std::vector<u64> const& seg_c
             std::vector<u64> first(P, ~0ULL), count(P, 0), enter(P, 0);
             for (u64 r = 0; r != P; ++r)
             {
-                for (auto const& rec : o.ranks[r].calls)
+                // from the cheap per iteration statistics (available in volume runs without call logs too)
+                auto const st = o.ranks[r].stats.find(static_cast<std::uint32_t>(k));
+                if (st != o.ranks[r].stats.end() && st->second.calls != 0)
                 {
-                    if (rec.iter != k) continue;
-                    if (count[r] == 0) first[r] = rec.pos - per_call;   // position before the draws of the first call
-                    ++count[r];
+                    count[r] = st->second.calls;
+                    first[r] = st->second.first_pos - per_call;   // position before the draws of the first call
                 }
                 if (coll < o.ranks[r].colls.size()) enter[r] = o.ranks[r].colls[coll].pos;
             }
@@ -1374,6 +1405,41 @@ static bool mpi_segment(Plan const& p, Session& s, std::vector<u64> const& seg_c
         return false;
     }
 
+    if (volume)
+    {
+        // counters against the cheap statistics of the scripted integrand
+        rep.probes[seg_calls[0] > (1ULL << 30) ? "volume-run-2^31" : "volume-run-2^24"]++;
+        for (u64 k = o.base; k < o.results && k < v.results.size(); ++k)
+        {
+            u64 calls = 0, nz = 0, fin = 0;
+            for (auto const& c : o.ranks)
+            {
+                auto const st = c.stats.find(static_cast<std::uint32_t>(k));
+                if (st == c.stats.end()) continue;
+                calls += st->second.calls;
+                nz += st->second.nz;
+                fin += st->second.fin;
+            }
+            ResultView const& rv = v.results[k];
+            rep.calls += calls;
+            if (rv.calls != seg_calls[k - o.base] || calls != rv.calls || rv.nz != nz || rv.fin != fin)
+            {
+                rep.fail("C04", "counters-differ", key, fmt(
+                    "iteration %llu with %llu calls: counters (%llu, %llu, %llu), the integrand was entered %llu times with %llu non-zero and %llu finite values",
+                    (unsigned long long) k, (unsigned long long) seg_calls[k - o.base], (unsigned long long) rv.calls,
+                    (unsigned long long) rv.nz, (unsigned long long) rv.fin, (unsigned long long) calls,
+                    (unsigned long long) nz, (unsigned long long) fin));
+                rep.fail("C02", "non-zero-calls", fmt("%s %s mpi volume", integ_name(p.integ), nt_name(p.nt)), fmt(
+                    "iteration %llu: counters (%llu, %llu, %llu) for %llu evaluations, %llu non-zero, %llu finite",
+                    (unsigned long long) k, (unsigned long long) rv.calls, (unsigned long long) rv.nz,
+                    (unsigned long long) rv.fin, (unsigned long long) calls, (unsigned long long) nz,
+                    (unsigned long long) fin));
+                return false;
+            }
+        }
+        return true;
+    }
+
     // (b) - (d): per iteration against the public serial iteration
     for (u64 k = o.base; k < o.results; ++k)
     {
@@ -1407,7 +1473,7 @@ static bool mpi_segment(Plan const& p, Session& s, std::vector<u64> const& seg_c
             for (u64 j = 0; j != p.dims; ++j) h.ld(c.arena[r.off_u + j]);
             h.u64(r.channel);
             if (p.integ == VEGAS) for (u64 j = 0; j != p.dims; ++j) h.u64(c.bins[r.off_bin + j]);
-            if (p.integ == MULTI) for (u64 j = 0; j != p.dims; ++j) h.ld(c.arena[r.off_c + j]);
+            if (p.integ == MULTI) for (u64 j = 0; j != c.mapd; ++j) h.ld(c.arena[r.off_c + j]);
             h.ld(r.f);
             return h.h;
         };
